@@ -40,7 +40,15 @@ func c01Gen(c *vfCtx, emit func(c01Case)) {
 	// A2: one test, two calls, all ordered pairs of bodies
 	pairBodies := bodies
 	if !c.thorough() {
-		pairBodies = vfBodies(sigma, 2, 1)
+		// quick: all one-line bodies over the core alphabet plus all two-line bodies over the small one
+		seen := map[string]bool{}
+		pairBodies = nil
+		for _, b := range append(vfBodies(sigma, 1, 1), vfBodies(small, 2, 1)...) {
+			if !seen[b] {
+				seen[b] = true
+				pairBodies = append(pairBodies, b)
+			}
+		}
 	}
 	c.bound("pair_bodies", len(pairBodies))
 	for _, b1 := range pairBodies {
@@ -48,12 +56,16 @@ func c01Gen(c *vfCtx, emit func(c01Case)) {
 			emit(c01Case{Family: "A2", Tests: []vfTestExec{{Name: "TestA", Calls: []vfCall{snap(b1), snap(b2)}}}})
 		}
 	}
+	tinyBodies := smallBodies
+	if !c.thorough() {
+		tinyBodies = vfBodies(small, 1, 1)
+	}
 	// B: pre-existing file with 1..2 entries of another test, bodies over Σ, then TestA with 1..2 calls
 	for _, p1 := range smallBodies {
 		for _, b1 := range smallBodies {
 			emit(c01Case{Family: "B1", Pre: []vfEntry{{ID: "TestB - 1", Body: p1}},
 				Tests: []vfTestExec{{Name: "TestA", Calls: []vfCall{snap(b1)}}}})
-			for _, b2 := range smallBodies {
+			for _, b2 := range tinyBodies {
 				emit(c01Case{Family: "B2", Pre: []vfEntry{{ID: "TestB - 1", Body: p1}},
 					Tests: []vfTestExec{{Name: "TestA", Calls: []vfCall{snap(b1), snap(b2)}}}})
 			}
